@@ -16,11 +16,14 @@ def run(ctx):
     ctx.rule = ("a case is sizeof(**kw) on a random program whose parameters reference siblings, parents and keywords, with the keys "
                 "present and absent, paired with builds of domain values and parses of the built bytes followed by trailing data, at "
                 "non-zero stream offsets; non-trivial = sizeof answered and a build or parse succeeded, or a key was missing")
-    nprog = 1200 if quick else 15000
+    nprog = 900 if quick else 14000
+    from .. import universes as U
+    progs = [(p, rng.choice([{"k": 2}, {"k": 1}, {"k": 3}])) for p in U.systematic(rng, 0.4 if quick else 1.0, U.lookahead_wrappers())]
+    for i in range(nprog):
+        kw = rng.choice([{}, {"k": 2}, {"k": 1, "w": 3}, {"k": 0}, {"k": 3, "w": 1}])
+        progs.append((gen.program(rng, rng.choice([1, 2, 2, 3]), kw or {"k": 1, "w": 1}, greedy_ok=rng.random() < 0.3), kw))
     with campaign.Campaign(ctx, "c05", shard_size=900) as camp:
-        for i in range(nprog):
-            kw = rng.choice([{}, {"k": 2}, {"k": 1, "w": 3}, {"k": 0}, {"k": 3, "w": 1}])
-            prog = gen.program(rng, rng.choice([1, 2, 2, 3]), kw or {"k": 1, "w": 1}, greedy_ok=rng.random() < 0.3)
+        for i, (prog, kw) in enumerate(progs):
             con = campaign.realizable(prog)
             if con is None:
                 continue
@@ -38,7 +41,7 @@ def run(ctx):
                     ib, b = camp.build(prog, con, v, pre, kw)
                     camp.sh.session("C05.exact", [iz, ib])
                     if b["res"]["ok"]:
-                        data = bytes(b["res"]["v"]["b"]) + gen.rbytes(rng, rng.choice([0, 1, 3]))
+                        data = bytes(b["res"]["v"]["b"]) + gen.rbytes(rng, rng.choice([0, 1, 3, 5]))
                         st = rng.choice([0, 1, 2])
                         ip, p = camp.parse(prog, con, b"\xee" * st + data, st, kw)
                         camp.sh.session("C05.exact", [iz, ip])
